@@ -93,6 +93,18 @@ CLAIMED["C03"] = dict(
     technique="contract-based deductive verification: loop invariants over yielded prefixes of symbolic-length lists on the real AST, z3; AST dataflow for construction sites",
     design="DESIGN.md §3 C03")
 
+CLAIMED["C05"] = dict(
+    text="The real serializer / deserializer bodies are symbolically executed against spec functions SER / DESER written from the "
+         "statement (markers, binary -> null), with the recursion applied through the functions' own contracts; JSON-serialisability, "
+         "round trip with the same type name and exact binary nulling are lemmas by structural induction over an SMT datatype of Python "
+         "values; the dataclass registry (118 classes, 643 fields) is re-derived from the AST each run and every field hint shape must be "
+         "covered by the lemmas. One format-level defect (marker keys from document content) is a recorded known finding; the round-trip "
+         "theorem is proved outside it.",
+    note="Assumed: base64 and json are inverse pairs, dataclass __init__, value kinds delivered by openpyxl/xlrd. 'from_json raises nothing on "
+         "to_json output' is only checked natively (bounded: 580 type-directed instances + fixtures).",
+    technique="contract-based deductive verification: symbolic execution of the real AST against spec functions + induction lemmas over an SMT datatype, z3",
+    design="DESIGN.md §3 C05")
+
 PENDING = {}
 
 ALL = [f"C{i:02d}" for i in range(1, 21)]
